@@ -87,6 +87,57 @@ def constexpr_run(cases, rep, cfg, ntu=8):
     rep.notes.setdefault('constexpr_build_s', {})[cfg] = round(secs, 1)
     return n
 
+def constexpr_conv_sub(rep, cfg):
+    """mapping conversions and submdspan_mapping must be usable in constant expressions (C14, last sentence)"""
+    I = 'int'; E2 = 'md::extents<int, md::dynamic_extent, md::dynamic_extent>'; E1 = 'md::extents<int, md::dynamic_extent>'
+    lay = {'left': 'md::layout_left', 'right': 'md::layout_right', 'stride': 'md::layout_stride', 'lpad': 'mdx::layout_left_padded<md::dynamic_extent>', 'rpad': 'mdx::layout_right_padded<md::dynamic_extent>',
+           'lpad4': 'mdx::layout_left_padded<4>', 'rpad4': 'mdx::layout_right_padded<4>'}
+    # source mapping expressions over extents (4,3) whose strides are canonical for the target where required
+    src = {'left': 'md::layout_left::mapping<E>(E(4, 3))', 'right': 'md::layout_right::mapping<E>(E(4, 3))',
+           'stride_l': 'md::layout_stride::mapping<E>(E(4, 3), std::array<int, 2>{1, 4})', 'stride_r': 'md::layout_stride::mapping<E>(E(4, 3), std::array<int, 2>{3, 1})',
+           'lpad': 'mdx::layout_left_padded<md::dynamic_extent>::mapping<E>(E(4, 3), 4)', 'rpad': 'mdx::layout_right_padded<md::dynamic_extent>::mapping<E>(E(4, 3), 3)',
+           'lpad4': 'mdx::layout_left_padded<4>::mapping<E>(E(4, 3))', 'rpad4': 'mdx::layout_right_padded<4>::mapping<E>(E(3, 4))'}
+    pairs = [('left', 'left'), ('right', 'right'), ('left', 'stride'), ('right', 'stride'), ('lpad', 'stride'), ('rpad', 'stride'), ('stride_l', 'stride'),
+             ('stride_l', 'left'), ('stride_r', 'right'), ('lpad', 'left'), ('rpad', 'right'), ('lpad4', 'left'), ('rpad4', 'right'), ('left', 'lpad'), ('right', 'rpad'),
+             ('stride_l', 'lpad'), ('stride_r', 'rpad'), ('lpad', 'lpad'), ('rpad', 'rpad'), ('lpad4', 'lpad'), ('left', 'lpad4')]
+    body = []; names = []
+    for k, (s_, d) in enumerate(pairs):
+        body.append('  { using E = %s; constexpr auto sm_%d = %s; constexpr %s::mapping<md::extents<long, md::dynamic_extent, md::dynamic_extent>> dm_%d(sm_%d); '
+                    'constexpr long cv_%d = static_cast<long>(dm_%d(2, 1)); puts((std::string("conv %s->%s ") + std::to_string(cv_%d) + " " + std::to_string(static_cast<long>(sm_%d(2, 1)))).c_str()); }'
+                    % (E2, k, src[s_], lay[d], k, k, k, k, s_, d, k, k))
+        names.append('%s->%s' % (s_, d))
+    rank1 = [('left', 'right'), ('right', 'left'), ('lpad', 'rpad'), ('rpad', 'lpad')]
+    src1 = {'left': 'md::layout_left::mapping<E>(E(5))', 'right': 'md::layout_right::mapping<E>(E(5))', 'lpad': 'mdx::layout_left_padded<md::dynamic_extent>::mapping<E>(E(5), 4)', 'rpad': 'mdx::layout_right_padded<md::dynamic_extent>::mapping<E>(E(5), 4)'}
+    for k, (s_, d) in enumerate(rank1):
+        body.append('  { using E = %s; constexpr auto sm1_%d = %s; constexpr %s::mapping<E> dm1_%d(sm1_%d); constexpr int cw_%d = static_cast<int>(dm1_%d(3)); puts((std::string("conv1 %s->%s ") + std::to_string(cw_%d) + " 3").c_str()); }'
+                    % (E1, k, src1[s_], lay[d], k, k, k, k, s_, d, k))
+        names.append('rank1 %s->%s' % (s_, d))
+    subs = [('md::layout_left::mapping<E>(E(4, 3))', 'std::pair<int, int>{1, 3}, md::full_extent'), ('md::layout_right::mapping<E>(E(4, 3))', '2, md::strided_slice<int, int, int>{0, 3, 2}'),
+            ('md::layout_stride::mapping<E>(E(4, 3), std::array<int, 2>{1, 5})', 'md::full_extent, 1'), ('md::layout_right::mapping<E>(E(4, 3))', 'std::pair<int, int>{4, 4}, std::pair<int, int>{3, 3}')]
+    for k, (m, sl) in enumerate(subs):
+        body.append('  { using E = %s; constexpr auto bm_%d = %s; constexpr auto sb_%d = submdspan_mapping(bm_%d, %s); constexpr long so_%d = static_cast<long>(sb_%d.offset); puts((std::string("sub%d ") + std::to_string(so_%d)).c_str()); }' % (E2, k, m, k, k, sl, k, k, k, k))
+        names.append('submdspan_mapping %d' % k)
+    tu = '#include "vh.hpp"\nint main() {\n' + '\n'.join(body) + '\n  return 0;\n}\n'
+    try: exe, secs, cached = C.cxx_build('cxconv', [('cxconv.cpp', tu)], config=cfg)
+    except C.BuildError as e:
+        import re
+        m = re.search(r"(sm1?_|dm1?_|cv_|cw_|sb_|so_|bm_)(\d+)", e.log)
+        errl = [l for l in e.log.split('\n') if 'error' in l][:3]
+        which = None
+        if m:
+            k = int(m.group(2)); pre = m.group(1)
+            which = names[k] if pre in ('sm_', 'dm_', 'cv_') else names[len(pairs) + k] if pre in ('sm1_', 'dm1_', 'cw_') else names[len(pairs) + len(rank1) + k]
+        rep.violation(dict(kind='call-not-usable-in-a-constant-expression', call=which, compiler_errors=errl, config=cfg)); return
+    out = C.run([exe]).stdout.strip().split('\n'); n = 0
+    for l in out:
+        p = l.split()
+        if p[0].startswith('conv'):
+            n += 1
+            if p[2] != p[3]: rep.violation(dict(kind='constant-evaluated-conversion-changes-an-offset', line=l, config=cfg))
+    want_sub = ['sub0 1', 'sub1 6', 'sub2 5', 'sub3 12']
+    if [l for l in out if l.startswith('sub')] != want_sub: rep.violation(dict(kind='constant-evaluated-submdspan_mapping-offset-differs', got=[l for l in out if l.startswith('sub')], specified=want_sub, config=cfg))
+    rep.notes['constexpr_conversions_and_submappings_' + cfg] = len(out)
+
 # ------------------------------------------------------------------ run-time observation
 def analyse_map(cases, rep, cfg):
     pred_ub = obs_ub = 0
@@ -155,6 +206,7 @@ def check(prop, tier, seed, replay=None):
             k = 160 if tier == 'quick' else 600
             pick = rnd.sample(bnd, min(len(bnd), k)) + rnd.sample(oth, min(len(oth), k))
             constexpr_run(pick, rep, cfg)
+            constexpr_conv_sub(rep, cfg)
         if replay and replay.get('family') != 'sub': continue
         from . import subfam as S, checks_sub as CS
         try:
